@@ -75,11 +75,38 @@ impl EventParser {
                 self.extract_type_name(&type_ref.elem)
             }
             Type::Path(type_path) => {
-                // Get the last segment of the path (the actual type name)
+                // Get the last segment of the path (the actual type name), keeping its
+                // generic arguments so that Vec<T>, Option<T>, HashMap<K, V> ... stay intact
                 if let Some(segment) = type_path.path.segments.last() {
-                    segment.ident.to_string()
+                    let ident = segment.ident.to_string();
+                    if let syn::PathArguments::AngleBracketed(args) = &segment.arguments {
+                        let inner: Vec<String> = args
+                            .args
+                            .iter()
+                            .filter_map(|arg| match arg {
+                                syn::GenericArgument::Type(t) => Some(self.extract_type_name(t)),
+                                _ => None,
+                            })
+                            .collect();
+                        if !inner.is_empty() {
+                            return format!("{}<{}>", ident, inner.join(", "));
+                        }
+                    }
+                    ident
                 } else {
                     "unknown".to_string()
+                }
+            }
+            Type::Tuple(type_tuple) => {
+                if type_tuple.elems.is_empty() {
+                    "()".to_string()
+                } else {
+                    let elems: Vec<String> = type_tuple
+                        .elems
+                        .iter()
+                        .map(|t| self.extract_type_name(t))
+                        .collect();
+                    format!("({})", elems.join(", "))
                 }
             }
             _ => "unknown".to_string(),
